@@ -29,6 +29,38 @@ def stl_ref(c, h):
     return math.sqrt(float(q)) / 2
 
 
+def large_shell_check(modname, rng):
+    m = c05.module(modname)
+    a = float(round(rng.uniform(29.0, 31.0), 3))
+    smin, smax = 0.05, float(round(rng.uniform(0.680, 0.705), 4))
+    inp = {'fn': '%s.genhkl_all' % modname, 'sgno': 221, 'cell_choice': 'standard', 'cell': [a, a, a, 90.0, 90.0, 90.0], 'sintlmin': smin,
+           'sintlmax': smax, 'large_shell': True, 'known_id': None}
+    np.random.seed(11)
+    H = np.asarray(m.genhkl_all(inp['cell'], smin, smax, sgno=221, output_stl=True), float)
+    n = int(math.floor(2 * a * smax)) + 1
+    g = np.arange(-n, n + 1)
+    hh, kk, ll = np.meshgrid(g, g, g, indexing='ij')
+    stl = np.sqrt(hh * hh + kk * kk + ll * ll) / (2.0 * a)
+    margin = np.minimum(np.abs(stl - smin), np.abs(stl - smax)).min()
+    if margin < 1e-9:
+        return []                                   # a reflection on the boundary: the comparison below would be rounding dependent
+    want = int(np.count_nonzero((stl > smin) & (stl <= smax)))
+    out = []
+    if H.ndim != 2 or H.shape[1] != 4 or H.shape[0] != want:
+        out.append(dict(inp, what='number of rows (every integer triple of the shell, Pm-3m has no extinctions)', observed=list(H.shape), expected=[want, 4]))
+        return out
+    col = np.sqrt((H[:, :3] ** 2).sum(axis=1)) / (2.0 * a)
+    err = np.abs(H[:, 3] - col)
+    if err.max() > 1e-9:
+        k = int(np.argmax(err))
+        out.append(dict(inp, what='fourth column = sin(theta)/lambda of the row (row %d, hkl %s)' % (k, H[k, :3].astype(int).tolist()),
+                        observed=float(H[k, 3]), expected=float(col[k])))
+    key = H[:, 0] * 1e6 + H[:, 1] * 1e3 + H[:, 2]
+    if len(np.unique(key)) != len(key):
+        out.append(dict(inp, what='no row twice', observed=int(len(key) - len(np.unique(key))), expected=0))
+    return out
+
+
 def check_unique(c, modname, by, seed=0, prop='C06', variant=0):
     """property C06 on one case. returns (violations, d2_hits)"""
     fu, fa = '%s.genhkl_unique' % modname, '%s.genhkl_all' % modname
@@ -176,6 +208,10 @@ def oracle(ctx, hints=()):
         viol += v
         d2 += k
         evals += 4
+    # one LARGE list per run (more than 2^18 rows: block-wise expansion has its seams there): primitive cubic, no extinctions, so the
+    # expected set is every integer triple of the shell and the fourth column is |h| / (2a) -- checked with plain numpy
+    viol += large_shell_check('tools' if ctx.seed % 2 == 0 else 'laue', ctx.rng)
+    evals += 1
     c0 = cases[0]
     sample = dict(c0.ident(), n_expected=len(c0.expected()))
     return {'evaluations': evals, 'distinct_nontrivial': nontriv, 'violations': c05.dedup_known(viol), 'samples': [sample],
@@ -203,6 +239,14 @@ def replay(payload):
     if not v:
         print('replay C06: broken obligation, no input stored:', [b.get('what') for b in payload.get('broken', [])])
         return 1
+    if v.get('large_shell'):
+        import random
+        class _R(random.Random):
+            def uniform(self, a, b):            # reproduce the stored cell edge and upper bound
+                return v['cell'][0] if a == 29.0 else v['sintlmax']
+        res = large_shell_check(v['fn'].split('.')[0], _R(0))
+        print('replay C06 %s large shell a=%s (%s, %s] ->' % (v['fn'], v['cell'][0], v['sintlmin'], v['sintlmax']), ('VIOLATION: ' + res[0]['what']) if res else 'holds')
+        return 1 if res else 0
     c = c05.case_of_witness({'sgno': v['sgno'], 'cell_choice': v['cell_choice'], 'cell': v['cell'], 'sintlmin': v['sintlmin'], 'sintlmax': v['sintlmax']})
     mn = v['fn'].split('.')[0]
     res, d2 = check_unique(c, mn, v.get('by', 'no'))
